@@ -81,6 +81,48 @@ def all_and_lambda(ctx):
                            'what': 'awslambda entrypoint not preserved or nothing else renamed: %r' % out, 'found_by': 'awslambda', 'oracle': 'preserve', 'shapes': []})
 
 
+CLI_OTHERS_OFF = ['--no-combine-imports', '--no-remove-pass', '--no-hoist-literals', '--no-remove-object-base', '--no-convert-posargs-to-args',
+                  '--no-preserve-shebang', '--no-remove-explicit-return-none', '--no-remove-builtin-exception-brackets', '--no-constant-folding',
+                  '--no-remove-annotations']
+
+
+def cli_preserve(ctx, progs, found_by):
+    """the same through the command line: comma separated lists, the option repeated, and both mixed"""
+    import tempfile
+    import clirun
+    cwd = tempfile.mkdtemp(prefix='pmv_c10_')
+    try:
+        for ident, src in progs:
+            names = idents(src)
+            if len(names) < 2:
+                continue
+            for which in ('locals', 'globals'):
+                chosen = ctx.rng.sample(names, min(len(names), ctx.rng.randint(2, 4)))
+                cut = ctx.rng.randint(1, len(chosen) - 1)
+                spellings = [[','.join(chosen)], [','.join(chosen[:cut]), ','.join(chosen[cut:])], list(chosen), list(reversed(chosen))]
+                for parts in spellings:
+                    argv = list(CLI_OTHERS_OFF) + (['--rename-globals'] if which == 'globals' else [])
+                    for part in parts:
+                        argv += ['--preserve-' + which, part]
+                    r = clirun.run_cli(argv + ['-'], cwd, stdin=src.encode('utf-8'), force=True)
+                    ctx.count()
+                    ctx.bump('which', 'cli-' + which)
+                    if r['exit'] != 0:
+                        ctx.bump('cli', 'exit-%s' % r['exit'])
+                        continue
+                    out = r['stdout'].decode('utf-8')
+                    if len(parts) > 1:
+                        ctx.mark_nontrivial('cli' + ident + which + repr(parts))
+                    probs = alpha.preserved_problems(src, out, set(chosen), which)
+                    if probs:
+                        ctx.add_violation({'input': {'source': src, 'which': 'cli-' + which, 'names': parts, 'as_string': False},
+                                           'what': 'command line %r: %s' % (argv, '; '.join(probs[:3])), 'observed': out[:400],
+                                           'found_by': found_by, 'oracle': 'preserve', 'shapes': rc.shapes_of(src)})
+    finally:
+        import shutil
+        shutil.rmtree(cwd, ignore_errors=True)
+
+
 def run_programs(ctx, progs, found_by):
     for ident, src in progs:
         if ctx.time_left() < 10:
@@ -103,6 +145,9 @@ def run_programs(ctx, progs, found_by):
 def run(ctx):
     progs = rc.programs(ctx, ctx.scale(700, None), ctx.scale(150, 3000))
     run_programs(ctx, progs, 'generated')
+    sample = [p for p in progs if not p[0].startswith(('decl/', 'param'))]
+    ctx.rng.shuffle(sample)
+    cli_preserve(ctx, sample[:ctx.scale(60, 800)], 'command-line')
     all_and_lambda(ctx)
 
 
@@ -116,6 +161,17 @@ def replay(ctx, data):
         n0 = len(ctx.violations)
         one(ctx, 'replay', inp['source'], inp['which'], inp['names'], inp.get('as_string', False), 'replay')
         return len(ctx.violations) > n0
+    if str(inp.get('which', '')).startswith('cli-'):
+        import tempfile
+        import clirun
+        which = inp['which'][4:]
+        argv = list(CLI_OTHERS_OFF) + (['--rename-globals'] if which == 'globals' else [])
+        for part in inp['names']:
+            argv += ['--preserve-' + which, part]
+        cwd = tempfile.mkdtemp(prefix='pmv_c10_')
+        r = clirun.run_cli(argv + ['-'], cwd, stdin=inp['source'].encode('utf-8'), force=True)
+        names = set(n for part in inp['names'] for n in part.split(','))
+        return r['exit'] == 0 and bool(alpha.preserved_problems(inp['source'], r['stdout'].decode('utf-8'), names, which))
     if inp.get('which') in ('all', 'awslambda'):
         n0 = len(ctx.violations)
         all_and_lambda(ctx)
